@@ -799,6 +799,9 @@ Definition rrR (s : nstat) : R := @response_rate RF s.
 Lemma default_rate_R : @of_Q RF TRUST_MF_DEFAULT_RATE = 1 / 2.
 Proof. unfold of_Q, TRUST_MF_DEFAULT_RATE. cbn. lra. Qed.
 
+Lemma default_rate_bounds : 0 <= @of_Q RF TRUST_MF_DEFAULT_RATE <= 1.
+Proof. unfold of_Q, TRUST_MF_DEFAULT_RATE. cbn. lra. Qed.
+
 Lemma rr_bounds : forall s, 0 <= rrR s <= 1.
 Proof.
   intro s. unfold rrR, response_rate. destruct (0 <? s_ok s + s_fail s)%N eqn:E.
@@ -807,7 +810,7 @@ Proof.
     + apply Rdiv_nonneg; lra.
     + apply (Rmult_le_reg_r (@of_N RF (s_ok s) + @of_N RF (s_fail s))); [assumption|].
       unfold Rdiv. rewrite Rmult_assoc, Rinv_l by lra. lra.
-  - rewrite default_rate_R. lra.
+  - exact default_rate_bounds.
 Qed.
 
 (* the response rate is monotone: more successes never lower it, more failures never raise it *)
@@ -823,9 +826,9 @@ Proof.
     assert (@of_N RF (s_ok s) * @of_N RF (s_fail s') <= @of_N RF (s_ok s') * @of_N RF (s_fail s)); [|lra].
     apply Rmult_le_compat; assumption.
   - apply N.ltb_ge in E'. assert (s_ok s = 0%N) as -> by lia. cbn [div RF of_N]. simpl Z.of_N.
-    rewrite default_rate_R. unfold Rdiv. rewrite Rmult_0_l. lra.
+    pose proof default_rate_bounds. unfold Rdiv. rewrite Rmult_0_l. lra.
   - apply N.ltb_ge in E. apply N.ltb_lt in E'. assert (s_fail s' = 0%N) as H0 by lia.
-    rewrite H0, N.add_0_r in *. pose proof (of_N_R_pos _ E'). rewrite default_rate_R. cbn [div RF].
+    rewrite H0, N.add_0_r in *. pose proof (of_N_R_pos _ E'). pose proof default_rate_bounds. cbn [div RF].
     unfold Rdiv. rewrite Rinv_r by lra. lra.
   - lra.
 Qed.
